@@ -769,6 +769,30 @@ def faults_ext(model, want=lambda *a: True):
                     if 'zzunknown` ref' in doc and '.' not in doc.split('`')[1]:
                         continue        # a bare :field: reference in a route doc has no type context (unspecified)
                     yield (rule, 'doc/route', '%s.%s %s' % (ns_name, d.name, doc), _put_def(model, ns_name, fi, di, d._replace(doc=doc)))
+        # the same doc text on two types: a bare :field: reference that is right for the one and wrong for the other
+        for ns in model.namespaces:
+            if ns.name == 'stone_cfg':
+                continue
+            typed = [(fi, di, d) for _, fi, di, d in mm.all_defs(model, ns.name) if isinstance(d, (Struct, Union))]
+            for fi, di, d in typed:
+                members = mm.own_members(model, ns.name, d)
+                if not members:
+                    continue
+                doc = 'See :field:`%s`.' % members[0].name
+                n_other = 0
+                for fj, dj, t in typed:
+                    if t.name == d.name or n_other >= 2:
+                        continue
+                    chain_names = set()
+                    for cns, c in mm.struct_chain(model, ns.name, t):
+                        chain_names.update(m_.name for m_ in mm.own_members(model, cns, c))
+                    if members[0].name in chain_names:
+                        continue
+                    n_other += 1
+                    m2 = mm.replace_def(model, ns.name, fi, di, d._replace(doc=doc))
+                    fj2, dj2, t2 = mm.find_def(m2, ns.name, t.name)
+                    m2 = mm.replace_def(m2, ns.name, fj2, dj2, t2._replace(doc=doc))
+                    yield ('docref-field', 'doc/same-text-on-two-types', '%s: %s on %s (has the field) and on %s (has not)' % (ns.name, doc, d.name, t.name), _specs(m2))
     # ---- annotations ------------------------------------------------------------------------
     if True:
         for ns in model.namespaces:
